@@ -217,3 +217,71 @@ def events_equal(a, b):
     for i in range(len(a)):
         r = r and a[i] == b[i]
     return r
+
+
+# ------------------------------------------------------------------------------------------ the library's writer
+# view of an element: (tag, text, tail, [children])
+ESCAPES = {"&": "&amp;", "<": "&lt;", ">": "&gt;"}
+
+
+def esc(text):
+    """exactly the three markup characters are replaced, everything else (quotes included) is left alone"""
+    out = ""
+    for ch in text:
+        if ch == "&":
+            out += "&amp;"
+        elif ch == "<":
+            out += "&lt;"
+        elif ch == ">":
+            out += "&gt;"
+        else:
+            out += ch
+    return out
+
+
+def unclosed(v):
+    """the rendering with the choices: no end tag on data elements, whitespace = the element's tail"""
+    tag, text, tail, kids = v
+    ws = tail if tail is not None else ""
+    if len(kids) == 0:
+        return "<" + tag + ">" + esc(text if text is not None else "") + ws
+    out = "<" + tag + ">" + ws
+    for k in kids:
+        out += unclosed(k)
+    return out + "</" + tag + ">" + ws
+
+
+def blank(s):
+    return s is None or s.strip() == ""
+
+
+def same_but_whitespace(after, before):
+    """indent may only put whitespace where there was none or only whitespace"""
+    if after[0] != before[0] or len(after[3]) != len(before[3]):
+        return False
+    if len(before[3]) == 0:
+        if after[1] != before[1]:
+            return False
+    else:
+        if not (blank(before[1]) and blank(after[1])) and after[1] != before[1]:
+            return False
+    if not (blank(before[2]) and blank(after[2])) and after[2] != before[2]:
+        return False
+    ok = True
+    for a, b in zip(after[3], before[3]):
+        ok = ok and same_but_whitespace(a, b)
+    return ok
+
+
+def view_of(e):
+    return (e.tag, e.text, e.tail, [view_of(c) for c in e])
+
+
+def _view_model(it, a, kw):
+    def v(e):
+        return (e.tag, e.text, e.tail, [v(c) for c in e.kids])
+    return v(a[0])
+
+
+view_of._pyvc_model = _view_model
+view_of._pyvc_always = True
